@@ -324,6 +324,15 @@ class ImportSpec(Spec):
                         if k == 'pathpop' and index != -1:
                             continue        # with index=0 the module would remove the library's own entry
                         yield (k, where, index, pre)
+        # the recovery path of the temporary entry (the module shifted sys.path) with the directory already in front, and
+        # with warnings turned into errors (python -W error, pytest filterwarnings=error)
+        for k in ('pathins', 'pathpop'):
+            for index in (-1, 0):
+                if k == 'pathpop' and index != -1:
+                    continue
+                yield (k, 'top', index, 'front')
+                yield (k, 'top', index, 'absent+werror')
+                yield (k, 'top', index, 'front+werror')
 
     def hist_cost(self, hist):
         return 0
@@ -332,6 +341,8 @@ class ImportSpec(Spec):
         from xdoctest import utils
         import importlib
         kind, where, index, pre = hist
+        werror = pre.endswith('+werror')
+        pre = pre.replace('+werror', '')
         atoms = []
         with harness.scratch_dir('c12i') as d:
             sub = {'top': '', 'pkg': 'pkgq12', 'subpkg': os.path.join('pkgq12', 'sub')}[where]
@@ -355,7 +366,10 @@ class ImportSpec(Spec):
             before = snap()
             try:
                 try:
-                    m = utils.import_module_from_path(p, index=index)
+                    with warnings.catch_warnings():
+                        if werror:
+                            warnings.simplefilter('error')
+                        m = utils.import_module_from_path(p, index=index)
                     how = 'ok'
                     expname = '.'.join(([sub.replace(os.sep, '.')] if sub else []) + [name])
                     if m.__name__ != expname:
@@ -364,14 +378,14 @@ class ImportSpec(Spec):
                     if type(ex).__name__ == 'CaseTimeout':
                         raise
                     how = 'raised:' + type(ex).__name__
-                    if kind in ('good', 'pathins', 'pathappend', 'pathpop'):
+                    if kind in ('good', 'pathins', 'pathappend', 'pathpop') and not werror:
                         atoms.append({'sig': 'import:good-module-fails', 'msg': repr(ex)})
                 after = snap()
                 exp = dict(before)
                 # what the module itself did to sys.path stays (whether or not it then failed); the
                 # library's temporary entry must be gone
                 if kind.startswith('pathins'):
-                    exp['sys.path'] = ['/nonexistent_zz'] + before['sys.path']
+                    exp['sys.path'] = ['/nonexistent_zz'] + before['sys.path']     # incl. a directory the caller put in front
                 if kind.startswith('pathapp'):
                     exp['sys.path'] = before['sys.path'] + ['/nonexistent_yy']
                 if kind == 'pathpop':
